@@ -9,9 +9,9 @@ extern "C" {
 #include "a/str.h"
 }
 
-enum { L_CP, L_LEN2, L_LEN3, L_LEN4, L_LEN5, L_LEN6, L_BOUNDARY, L_BYTES, L_MALFORMED_REJECTED, L_MULTI_ACCEPTED, L_STRAY_CONT, L_FE_FF, L_TRUNCATED, L_LENGTH, L_LENGTH_STOPS_EARLY, L_WELLFORMED, L_TEXT, L_TEXT_NUL, L_STR_OBJECT };
+enum { L_CP, L_LEN2, L_LEN3, L_LEN4, L_LEN5, L_LEN6, L_BOUNDARY, L_BYTES, L_MALFORMED_REJECTED, L_MULTI_ACCEPTED, L_STRAY_CONT, L_FE_FF, L_TRUNCATED, L_LENGTH, L_LENGTH_STOPS_EARLY, L_WELLFORMED, L_TEXT, L_TEXT_NUL, L_STR_OBJECT, L_RELATED_CP };
 static char const *const labels[] = {"code_point_round_trip", "len2", "len3", "len4", "len5", "len6", "length_boundary_code_point", "arbitrary_bytes", "malformed_rejected",
-                                     "multibyte_accepted", "stray_continuation_lead", "lead_FE_or_FF", "truncated_sequence", "length_counter", "length_counter_stops_before_end", "wellformed_string", "mostly_ascii_text_up_to_256_code_points", "text_with_embedded_nul", "string_object_cut_inside_a_character", nullptr};
+                                     "multibyte_accepted", "stray_continuation_lead", "lead_FE_or_FF", "truncated_sequence", "length_counter", "length_counter_stops_before_end", "wellformed_string", "mostly_ascii_text_up_to_256_code_points", "text_with_embedded_nul", "string_object_cut_inside_a_character", "appended_code_point_related_to_the_previous_one_surrogate_halves", nullptr};
 static char const *const metrics[] = {nullptr};
 static uint8_t const dict[] = {0xC0, 0xC2, 0xDF, 0xE0, 0xEF, 0xF0, 0xF7, 0xF8, 0xFB, 0xFC, 0xFD, 0xFE, 0xFF, 0x80, 0xBF, 0x00};
 static vp_info const info = {"C18", "utf8", "", labels, metrics, 64, dict, sizeof(dict)};
@@ -130,11 +130,42 @@ static void run_case(Tape &t, Ctx &cx)
         a_str_ctor(&st);
         struct D { a_str *s; ~D() { a_str_dtor(s); } } dd{&st};
         unsigned k = 1 + t.u8() % 6;
+        std::string expect_bytes;
+        uint32_t prev = 0;
         for (unsigned i = 0; i < k; ++i)
         {
-            uint32_t cp = t.u8() % 3 ? gen_cp(t, cx) : 0x20u + t.u8() % 95u;
+            // each appended code point is encoded on its own, whatever the string already ends with: besides independent draws,
+            // code points related to the one appended just before (the other half of a UTF-16 surrogate pair, the same again,
+            // one bit flipped) - an encoder has no business looking back, and this is where one that does shows
+            uint8_t selb = t.u8();
+            uint32_t cp;
+            if (selb >= 200)
+            {
+                uint16_t w = t.u16();
+                if (i == 0 || (selb & 1)) { cp = 0xD800u + w % 0x400u; } // a lead surrogate value
+                else
+                {
+                    switch ((selb >> 1) % 4)
+                    {
+                    case 0: cp = (prev >= 0xD800u && prev < 0xDC00u) ? 0xDC00u + w % 0x400u : prev + 0x400u; break;
+                    case 1: cp = prev ^ 0x400u; break;
+                    case 2: cp = prev; break;
+                    default: cp = 0xDC00u + w % 0x400u; break;
+                    }
+                    if (cp < 1 || cp > 0x7FFFFFFFu) { cp = 0xDC00u; }
+                }
+                cx.label(L_RELATED_CP);
+            }
+            else { cp = selb % 3 ? gen_cp(t, cx) : 0x20u + t.u8() % 95u; }
             cx.hash.add(cp);
             if (a_utf_catc(&st, cp) != A_SUCCESS) { return; }
+            uint8_t e[8];
+            unsigned ne = ref_encode(cp, e);
+            expect_bytes.append((char const *)e, ne);
+            VP_CHECK(cx, a_str_len(&st) == expect_bytes.size() && memcmp(a_str_ptr(&st), expect_bytes.data(), expect_bytes.size()) == 0, "catc:bytes",
+                     "after appending U+%X (%u-th code point, previous U+%X) the string holds %zu bytes, the encodings of the appended code points make %zu (or the bytes differ)", cp, i + 1, prev, (size_t)a_str_len(&st), expect_bytes.size());
+            VP_CHECK(cx, a_utf_len(&st, nullptr) == i + 1, "catc:count", "after appending %u code points a_utf_len counts %zu", i + 1, (size_t)a_utf_len(&st, nullptr));
+            prev = cp;
         }
         unsigned cutn = t.u8() % 7;
         for (unsigned i = 0; i < cutn && a_str_len(&st); ++i)
